@@ -94,7 +94,7 @@ CHECKS.update({
  "C13": ("DESIGN.md 4/C13", SE + "; a description and its re-presentation (state permutation, transition order, action renaming) solved in one path",
          "Real solve() on template instances and their re-presentations: same solvable/no-solution outcome; probabilities and rewards "
          "agree up to renumbering within tolerance (solver query over symbolic rewards); strategies agree up to renaming where the "
-         "oracle's competing values are equal/separated.", TB + "; template games; seeded permutations beyond reversal/rotation"),
+         "oracle's competing values are equal/separated or (acyclic templates) each lies well inside a 6-digit rounding cell.", TB + "; template games; seeded permutations beyond reversal/rotation"),
  "C16": ("DESIGN.md 4/C16", "parametric symbolic execution of the real report writer on opaque tokens (solver only splits the equality flag); reader/main on menus",
          "Real save_results_to_file executed on result dictionaries whose values are opaque tokens: file name outputs/<stem>.txt, one "
          "block per entry in order, 14 labelled lines each carrying exactly the token stored under its key, equality line = truth value of "
